@@ -110,6 +110,9 @@ func (o v07Op) String() string {
 	case v07OpReleaseLog:
 		return "releaseLogClose"
 	case v07OpConnLost:
+		if o.size > 0 {
+			return fmt.Sprintf("connectionLost(up to %d queued datagrams are still delivered)", o.size)
+		}
 		return "connectionLost"
 	case v07OpSync:
 		return "sync"
@@ -353,7 +356,9 @@ type v07H struct {
 	inbox  chan *v07InMsg
 	lostCh chan struct{}
 	lost   bool
-	curS   int // session index of the datagram handed to the receive loop last
+	// lostDrain: datagrams still handed out by ReceiveMessage after the connection was lost
+	lostDrain int
+	curS      int // session index of the datagram handed to the receive loop last
 
 	dialFail, hookFail, writeFail bool
 	sendFail                      map[uint32]bool
@@ -382,12 +387,30 @@ func (io *v07IO) ReceiveMessage() (*protocol.UDPMessage, error) {
 	h.mu.Lock()
 	h.logLocked(v07Ev{k: v07EvRecvWait})
 	lost := h.lost
-	if lost {
+	var drained *v07InMsg
+	if lost && h.lostDrain > 0 {
+		// like quic-go's datagram queue: datagrams that arrived before the connection died are
+		// still handed out after it died
+		select {
+		case drained = <-h.inbox:
+			h.lostDrain--
+		default:
+		}
+	}
+	if lost && drained == nil {
 		h.logLocked(v07Ev{k: v07EvRecvErr})
 	}
 	h.mu.Unlock()
-	if lost {
+	if lost && drained == nil {
 		return nil, v07ErrLost
+	}
+	if drained != nil {
+		m := drained
+		h.mu.Lock()
+		h.curS = m.op.s
+		h.logLocked(v07Ev{k: v07EvRecv, msg: m.n, sid: m.sid, pid: m.op.pid, fid: m.op.fragID, fcnt: m.op.fragCount, addr: m.addr, data: m.data})
+		h.mu.Unlock()
+		return &protocol.UDPMessage{SessionID: m.sid, PacketID: m.op.pid, FragID: m.op.fragID, FragCount: m.op.fragCount, Addr: m.addr, Data: append([]byte(nil), m.data...)}, nil
 	}
 	select {
 	case m := <-h.inbox:
@@ -1565,6 +1588,7 @@ func v07Execute(cfg v07Cfg, ops []v07Op) (res *v07Result, h *v07H, abandon bool)
 			synctest.Wait() // never race the loss against queued datagrams
 			h.mu.Lock()
 			h.lost = true
+			h.lostDrain = op.size // queued datagrams (the receive loop is parked) are still delivered
 			h.mu.Unlock()
 			close(h.lostCh)
 		case v07OpSync:
